@@ -19,6 +19,23 @@ LEVEL = "proof"
 LV = "rpylib.distribution.levycopula:"
 
 
+def warm_up(vc, cop, dims=(2, 3)):
+    """history for a copula under test: ANOTHER Clayton copula (other parameters) has been evaluated in both dimensions, and
+    the copula under test itself in the given dimensions -- anything remembered from a first use (per class, per object, per
+    dimension) must not leak into the evaluation that follows"""
+    th0, et0 = vc.real("theta_of_another_copula"), vc.real("eta_of_another_copula")
+    vc.assume(And(th0 > 0, et0 > 0, et0 < 1))
+    other = vc.new(LV + "ClaytonCopula", theta=th0, eta=et0)
+    for d in (2, 3):
+        pt = np.array([0.5 + 0.25 * k for k in range(d)], dtype=object)
+        vc.interp.call(other, [pt], {})
+        vc.method(other, "x_first_derivative", pt)
+    for d in dims:
+        pt = np.array([0.5 + 0.25 * k for k in range(d)], dtype=object)
+        vc.interp.call(cop, [pt], {})
+        vc.method(cop, "x_first_derivative", pt)
+
+
 def clayton(vc, reassigned=False):
     """a Clayton copula built by its REAL constructor; reassigned: built with other parameters first, theta and eta assigned
     afterwards (public attributes, theta through its validating descriptor) -- nothing may remember the constructor's values"""
@@ -70,16 +87,21 @@ class ClaytonGroundedAndMargins(Lemma):
     """Clayton: F = 0 when an argument is 0; every one-dimensional margin (real `margin` helper, other arguments summed
     over +-inf with their signs) is the identity, d = 2, 3, either sign of the remaining argument"""
     prop = "C11"
-    cases = tuple((d, i, s) for d in (2, 3) for i in range(d) for s in (+1, -1)) + ((2, 0, +1, "parameters reassigned"), (2, 1, -1, "parameters reassigned"), (3, 1, +1, "parameters reassigned"))
+    cases = tuple((d, i, s) for d in (2, 3) for i in range(d) for s in (+1, -1)) + ((2, 0, +1, "parameters reassigned"), (2, 1, -1, "parameters reassigned"), (3, 1, +1, "parameters reassigned")) \
+        + ((2, 0, +1, "history"), (3, 0, +1, "history"))
 
     def __init__(self):
         self.name = "property:clayton-grounded-and-margins"
 
     def prove(self, vc, case):
         d, i, s = case[:3]
-        re_ = len(case) > 3
-        nm = f"{self.name}[d={d},margin={i},{'+' if s > 0 else '-'}{',parameters reassigned after construction' if re_ else ''}]"
+        re_ = len(case) > 3 and case[3] == "parameters reassigned"
+        hist = len(case) > 3 and case[3] == "history"
+        nm = f"{self.name}[d={d},margin={i},{'+' if s > 0 else '-'}{',parameters reassigned after construction' if re_ else ''}{',after other copulas and dimensions were evaluated' if hist else ''}]"
         cop, theta, eta = clayton(vc, reassigned=re_)
+        if hist:
+            vc.assume(And(eta > 0, eta < 1))
+            warm_up(vc, cop, dims=(5 - d,))
         (u,), (mag,) = signed_args(vc, [s])
         it = vc.interp
         # grounded: zero at coordinate i, anything elsewhere
@@ -94,11 +116,16 @@ class ClaytonGroundedAndMargins(Lemma):
         from rpylib.distribution.levycopula import ClaytonCopula
         from rpylib.model.levycopulamodel import margin
         d, i, s = case[:3]
-        if len(case) > 3:
+        if len(case) > 3 and case[3] == "parameters reassigned":
             c = ClaytonCopula(theta=2.5, eta=0.8)
             c.theta, c.eta = 0.7, 0.3
         else:
             c = ClaytonCopula(theta=0.7, eta=0.3)
+        if len(case) > 3 and case[3] == "history":
+            o_ = ClaytonCopula(theta=2.0, eta=0.6)
+            for dd in (2, 3):
+                o_(np.array([0.5, 0.75, 1.0][:dd])), o_.x_first_derivative(np.array([0.5, 0.75, 1.0][:dd]))
+            c(np.array([0.5, 0.75, 1.0][:5 - d])), c.x_first_derivative(np.array([0.5, 0.75, 1.0][:5 - d]))
         u = s * 1.3
         got = margin(c, [i], d)(np.array([u]))
         z = np.array([0.0 if k == i else 0.4 * (k + 1) for k in range(d)])
@@ -146,15 +173,20 @@ class ClaytonMixedDerivative(Lemma):
     """Clayton, per orthant: x_first_derivative(u) = (prod u_i) * d^d F / du_1..du_d, and the mixed derivative equals a
     manifestly non-negative expression -- so F is d-increasing inside every orthant (volume = integral of it, A6)."""
     prop = "C11"
-    cases = tuple(s for d in (2, 3) for s in itertools.product((+1, -1), repeat=d))
+    cases = tuple(s for d in (2, 3) for s in itertools.product((+1, -1), repeat=d)) + ((+1, +1, "history"), (+1, -1, +1, "history"))
 
     def __init__(self):
         self.name = "property:clayton-mixed-derivative"
 
     def prove(self, vc, signs):
+        hist = signs[-1] == "history"
+        signs = tuple(s for s in signs if s != "history")
         d = len(signs)
-        nm = f"{self.name}[{''.join('+' if s > 0 else '-' for s in signs)}]"
+        nm = f"{self.name}[{''.join('+' if s > 0 else '-' for s in signs)}{',after other copulas and dimensions were evaluated' if hist else ''}]"
         cop, theta, eta = clayton(vc)
+        if hist:
+            vc.assume(And(eta > 0, eta < 1))
+            warm_up(vc, cop, dims=(5 - d,))          # the copula under test first used in the OTHER dimension
         us, mags = signed_args(vc, signs)
         it = vc.interp
         arr = np.array(us, dtype=object)
@@ -185,8 +217,15 @@ class ClaytonMixedDerivative(Lemma):
 
     def replay(self, model, clause, signs):
         from rpylib.distribution.levycopula import ClaytonCopula
+        hist = signs[-1] == "history"
+        signs = tuple(s for s in signs if s != "history")
         c = ClaytonCopula(theta=0.7, eta=0.3)
         d = len(signs)
+        if hist:
+            o_ = ClaytonCopula(theta=2.0, eta=0.6)
+            for dd in (2, 3):
+                o_(np.array([0.5, 0.75, 1.0][:dd])), o_.x_first_derivative(np.array([0.5, 0.75, 1.0][:dd]))
+            c(np.array([0.5, 0.75, 1.0][:5 - d])), c.x_first_derivative(np.array([0.5, 0.75, 1.0][:5 - d]))
         u = np.array([s * (0.5 + 0.3 * k) for k, s in enumerate(signs)])
         h = 1e-4
         # finite-difference volume of a small rectangle around u, divided by its size ~ mixed derivative
